@@ -68,7 +68,17 @@ Definition check_with (V : variant) (i : c18_case) (o : c18_obs) : N :=
       let C := {| consts := cs; vars := vs |} in
       match eval V O C e with
       | OutOfModel => 4%N
-      | r => code_of (obs_matches e r o) (spec_ok O C e o)
+      | r =>
+          match V with
+          | Pinned => code_of (obs_matches e r o) (spec_ok O C e o)
+          | Repaired =>
+              (* API level: exec's recover frame turns a panic into an error.  The only panic of
+                 the repaired model is SETVAR's nil-map write (C18_only_panic_is_setvar_nil_map);
+                 a recovered runtime error is accepted there — and only there — as the error it
+                 is for the caller *)
+              let o' := match r, o with Panic, OPanicked => OError | _, _ => o end in
+              code_of (obs_matches e (catch_panic r) o') (spec_ok O C e o')
+          end
       end
   end.
 
